@@ -259,10 +259,13 @@ def main(prop, tier, seed, replay=None):
     known = [k for k in findings.get("known", []) if k.get("property") == prop]
     n_reported = 0
     exit_code = 0
+    printed_known = set()
     for i, v in enumerate(violations):
         match = next((k for k in known if v.signature and k.get("signature") == v.signature), None)
         if match:
-            print("KNOWN-FINDING: property=%s %s" % (prop, match.get("what", v.what)))
+            if v.signature not in printed_known:
+                printed_known.add(v.signature)
+                print("KNOWN-FINDING: property=%s %s" % (prop, match.get("what", v.what)))
             continue
         path = write_replay(prop, seed, i, dict(property=prop, what=v.what, replay=v.replay,
                                                 replay_cmd="./check %s --replay <this file>" % prop))
